@@ -89,6 +89,11 @@ def world_for(case, variant):
             argv_dirs.append(P(a))
         elif how == 'dot' and mode == 'rel':
             argv_dirs.append('./' + d)
+        elif how == 'tilde' and mode == 'rel':
+            # a directory literally named '~' under the working directory (here: a link back to it); no shell is
+            # involved, so the tool sees the '~' itself - and what it means must not depend on $HOME
+            links[f'{root}/~'] = root
+            argv_dirs.append('~/' + d)
         elif how == 'slash':
             argv_dirs.append(P(d) + '/')
         elif how == 'abs':
@@ -98,7 +103,11 @@ def world_for(case, variant):
     for i in v.get('dups', []):
         if i < len(dirs):
             argv_dirs.append(f'{root}/{dirs[i]}')
-    argv = ['bespokeasm', 'compile', '-c', P(case['isa_name']), P('main.asm'), '-o', P('out.bin')] + list(
+    cfg_path = P(case['isa_name'])
+    if v.get('tilde_config') and mode == 'rel':
+        links[f'{root}/~'] = root
+        cfg_path = '~/' + case['isa_name']
+    argv = ['bespokeasm', 'compile', '-c', cfg_path, P('main.asm'), '-o', P('out.bin')] + list(
         case.get('opts', []))
     if case.get('fmt'):
         argv += ['-p', '-t', case['fmt']]
@@ -288,7 +297,7 @@ def gen_variant(rnd, ndirs, single=None):
         order = list(range(ndirs))
         rnd.shuffle(order)
         v['order'] = order
-        v['spell'] = [rnd.choice(['plain', 'dot', 'slash', 'abs', 'alias']) for _ in range(ndirs)]
+        v['spell'] = [rnd.choice(['plain', 'dot', 'slash', 'abs', 'alias', 'tilde']) for _ in range(ndirs)]
         if rnd.random() < 0.4:
             v['dups'] = [rnd.randrange(ndirs)]
     if 'cwd' in chosen:
@@ -302,6 +311,7 @@ def gen_variant(rnd, ndirs, single=None):
         names = rnd.sample(sorted(ENV_POOL), rnd.randrange(1, 6))
         v['env'] = {n: rnd.choice(ENV_POOL[n]) for n in names}
         v['home'] = rnd.choice(['/sim/home2', '/nonexistent', '/sim/proj'])
+        v['tilde_config'] = rnd.random() < 0.4
     if 'enc' in chosen:
         v['encoding'] = rnd.choice(['ascii', 'latin-1', 'utf-8', 'cp1252'])
         v['stdout_encoding'] = rnd.choice(['ascii', 'latin-1', 'utf-8', 'utf-16', 'utf-16'])
@@ -327,6 +337,10 @@ def explore(subseed, cfg):
             'opts': []}
     if rnd.random() < 0.2 and info['addr_bits'] >= 12:
         case['opts'] = ['-e', str(info['origin'] + rnd.choice([255, 1023])), '-f', str(rnd.randrange(256))]
+    elif rnd.random() < 0.12:
+        # an image window that contains nothing: an empty image is written - also over a stale file
+        case['opts'] = rnd.choice([['-s', '3000'], ['-s', '8', '-e', '4'], ['-s', '65535'], ['-s', '70000']])
+        pr['empty_image_window'] = 1
     if rnd.random() < 0.25:
         # command-line symbols: a legal set, or the same name twice (rejected - in every run, whatever the order)
         dopts = rnd.choice([['-D', 'LVL=1'], ['-D', 'LVL=1', '-D', 'DBG2'], ['-D', 'LVL=1', '-D', 'LVL=2'],
